@@ -180,6 +180,36 @@ def shrink(check, choices, target, mode=None, budget_s=25.0, max_execs=3000):
     return best, execs[0], True
 
 
+def find_prelude(prop, fw, mode, choices, target, tmpdir, recent, max_fresh=10):
+    """Smallest suffix / subset of the recent runs (found with a few fresh interpreters) after which `choices` shows the
+    violation.  Returns (prelude, digest of the judged run) or None."""
+    if not recent:
+        return None
+    hit, digest = fresh_has_violation(prop, fw, mode, choices, target, tmpdir, prelude=recent)
+    if not hit:
+        return None
+    best, n = list(recent), 1
+    # halve from the front while the violation stays, then try to drop single runs
+    while len(best) > 1 and n < max_fresh:
+        cand = best[len(best) // 2:]
+        n += 1
+        h, d = fresh_has_violation(prop, fw, mode, choices, target, tmpdir, prelude=cand)
+        if h:
+            best, digest = cand, d
+        else:
+            break
+    i = 0
+    while i < len(best) and len(best) > 1 and n < max_fresh:
+        cand = best[:i] + best[i + 1:]
+        n += 1
+        h, d = fresh_has_violation(prop, fw, mode, choices, target, tmpdir, prelude=cand)
+        if h:
+            best, digest = cand, d
+        else:
+            i += 1
+    return best, digest
+
+
 # ------------------------------------------------------------------------------------------
 # worker
 # ------------------------------------------------------------------------------------------
@@ -187,7 +217,7 @@ def shrink(check, choices, target, mode=None, budget_s=25.0, max_execs=3000):
 _fresh_n = [0]
 
 
-def fresh_has_violation(prop, fw, mode, choices, target, tmpdir):
+def fresh_has_violation(prop, fw, mode, choices, target, tmpdir, prelude=None):
     """Does this choice sequence show the violation (clause, sig) when run on its own in a fresh interpreter?
     (A run that only fails after other runs in the same process depends on process-global state, and its choice
     sequence is no replay.)  Returns (bool, digest or None)."""
@@ -195,7 +225,7 @@ def fresh_has_violation(prop, fw, mode, choices, target, tmpdir):
     _fresh_n[0] += 1
     path = os.path.join(tmpdir, "fresh-%d-%d.json" % (os.getpid(), _fresh_n[0]))
     with open(path, "w") as f:
-        json.dump({"property": prop, "framework": fw, "mode": mode, "choices": choices}, f)
+        json.dump({"property": prop, "framework": fw, "mode": mode, "choices": choices, "prelude": prelude or []}, f)
     here = os.path.dirname(os.path.dirname(os.path.abspath(__file__)))
     try:
         p = subprocess.run([sys.executable, "-u", "-m", "sim.worker", json.dumps({"path": path}), "replay"], cwd=here,
@@ -244,6 +274,8 @@ def worker_main(argv):
         "samples": [], "wall_s": 0.0, "first_seed": None, "last_index": None, "modes": {}, "nonrepro": [],
     }
     tmpdir = os.path.dirname(os.path.abspath(out))
+    import collections
+    recent = collections.deque(maxlen=24)  # (mode, choices) of the runs before the current one
     nonrepro = 0
     hashes = set()
     t0 = time.time()
@@ -300,28 +332,42 @@ def worker_main(argv):
             if hit:
                 new_violation = cand
             else:
-                nonrepro += 1
-                if len(stats["nonrepro"]) < 3:
-                    stats["nonrepro"].append(cand)
+                # not on its own - then with the runs that went before it in this process?  (state that outlives a
+                # connection or session: class attributes, caches, shared defaults.)  A replay file may carry such a
+                # history ("prelude"); it is cut down to the runs that are needed.
+                pre = find_prelude(prop, fw, mode, r.choices, (clause, sig), tmpdir, list(recent))
+                if pre is not None:
+                    cand["prelude"], cand["prelude_digest"] = pre
+                    new_violation = cand
+                else:
+                    nonrepro += 1
+                    if len(stats["nonrepro"]) < 3:
+                        stats["nonrepro"].append(cand)
             break
         if new_violation is not None or nonrepro >= 6:
             break
+        recent.append({"mode": mode, "choices": r.choices})
         i += nworkers
     if new_violation is not None:
         v = new_violation
         target = (v["clause"], v["sig"])
-        best, execs, ok = shrink(check, v["choices"], target, mode=v["mode"],
-                                 budget_s=args.get("shrink_s", 25.0))
-        hit, _ = fresh_has_violation(prop, fw, v["mode"], best, target, tmpdir)
-        v["minimised"] = True
-        if not hit:
-            # the minimised sequence only fails in this (used) process: keep the original one, which does replay
-            best = v["choices"]
+        if v.get("prelude"):
+            # (the judged run is kept as it was found: in this used process it cannot be minimised on its own)
+            best, execs = v["choices"], 0
             v["minimised"] = False
+        else:
+            best, execs, ok = shrink(check, v["choices"], target, mode=v["mode"],
+                                     budget_s=args.get("shrink_s", 25.0))
+            hit, _ = fresh_has_violation(prop, fw, v["mode"], best, target, tmpdir)
+            v["minimised"] = True
+            if not hit:
+                # the minimised sequence only fails in this (used) process: keep the original one, which does replay
+                best = v["choices"]
+                v["minimised"] = False
         r3 = execute(check, replay=best, keep_trace=True, mode=v["mode"])
         v["min_choices"] = best
         v["min_execs"] = execs
-        v["min_digest"] = r3.digest
+        v["min_digest"] = v.get("prelude_digest") or r3.digest
         v["min_trace"] = r3.trace
         v["min_labels"] = r3.labels
         v["min_violations"] = [list(x) for x in r3.violations]
@@ -342,6 +388,10 @@ def replay_main(argv):
     from . import backend
     backend.load(rep["framework"])
     check = load_check(rep["property"])
+    # a history: earlier runs of the same process (connections / sessions that came and went before the judged one);
+    # they are executed first, what they report is not judged
+    for pr in rep.get("prelude") or []:
+        execute(check, replay=pr["choices"], mode=pr.get("mode"))
     r = execute(check, replay=rep["choices"], keep_trace=True, mode=rep.get("mode"))
     out = {"digest": r.digest, "violations": [list(v) for v in r.violations], "harness_error": r.harness_error,
            "trace": r.trace if args.get("trace") else None, "labels": r.labels if args.get("trace") else None}
